@@ -206,17 +206,43 @@ func (cj *CookieJar) parseCookiesFromResp(host, path []byte, resp *fasthttp.Resp
 	}
 
 	now := time.Now()
-	resp.Header.VisitAllCookie(func(key, value []byte) {
-		created := false
-		c := searchCookieByKeyAndPath(key, path, cookies)
-		if c == nil {
-			c, created = fasthttp.AcquireCookie(), true
+	resp.Header.VisitAllCookie(func(_, value []byte) {
+		c := fasthttp.AcquireCookie()
+		_ = c.ParseBytes(value) //nolint:errcheck // ignore error
+
+		// Max-Age wins over Expires (RFC 6265, 5.3). fasthttp only keeps a positive
+		// Max-Age, so "max-age=0" (expire now) has to be looked up in the raw value.
+		if maxAge := c.MaxAge(); maxAge > 0 {
+			c.SetExpire(now.Add(time.Duration(maxAge) * time.Second))
+		} else if hasZeroMaxAge(value) {
+			c.SetExpire(now.Add(-time.Second))
+		}
+		alive := c.Expire().Equal(fasthttp.CookieExpireUnlimited) || c.Expire().After(now)
+
+		// A cookie is identified by its name and its own path ("" and "/" being the same),
+		// whatever path was requested.
+		idx := -1
+		for i, existing := range cookies {
+			if bytes.Equal(existing.Key(), c.Key()) && (bytes.Equal(existing.Path(), c.Path()) || (len(existing.Path()) <= 1 && len(c.Path()) <= 1)) {
+				idx = i
+				break
+			}
 		}
 
-		_ = c.ParseBytes(value) //nolint:errcheck // ignore error
-		if c.Expire().Equal(fasthttp.CookieExpireUnlimited) || c.Expire().After(now) {
+		switch {
+		case idx >= 0 && alive:
+			// Replace the stored cookie.
+			cookies[idx].CopyTo(c)
+			fasthttp.ReleaseCookie(c)
+		case idx >= 0:
+			// The server expired a stored cookie: drop it.
+			fasthttp.ReleaseCookie(cookies[idx])
+			cookies = append(cookies[:idx], cookies[idx+1:]...)
+			cookies[:len(cookies)+1][len(cookies)] = nil
+			fasthttp.ReleaseCookie(c)
+		case alive:
 			cookies = append(cookies, c)
-		} else if created {
+		default:
 			fasthttp.ReleaseCookie(c)
 		}
 	})
@@ -234,6 +260,18 @@ func (cj *CookieJar) Release() {
 	//	  }
 	// }
 	cj.hostCookies = nil
+}
+
+// hasZeroMaxAge reports whether a Set-Cookie value carries "max-age=0" or a negative Max-Age.
+func hasZeroMaxAge(value []byte) bool {
+	for _, attr := range bytes.Split(value, []byte{';'})[1:] {
+		k, v, ok := bytes.Cut(bytes.TrimSpace(attr), []byte{'='})
+		if ok && bytes.EqualFold(k, []byte("max-age")) {
+			v = bytes.TrimSpace(v)
+			return len(v) > 0 && (v[0] == '-' || len(bytes.Trim(v, "0")) == 0)
+		}
+	}
+	return false
 }
 
 // searchCookieByKeyAndPath looks up a cookie by its key and path from the provided slice of cookies.
